@@ -54,7 +54,11 @@ func genC02(t *rapid.T) c02Scenario {
 		RpmWindow: rapid.SampledFrom([]int{1, 1, 2, 5, 20}).Draw(t, "window"), Stop: sim.StopSpec{AtMs: -1}}
 	// spins only at pwm >= theta: 0 = always, otherwise below/between/above the limits
 	sc.Law = sim.RpmLaw{Theta: rapid.SampledFrom([]int{0, 5, 30, 60, 120, 200, 256, 256}).Draw(t, "theta"), Rpm: rapid.SampledFrom([]int{800, 3000}).Draw(t, "rpm")}
-	sc.Steps = genStallSteps(t, rapid.IntRange(50, 400).Draw(t, "nSteps"), true)
+	nSteps := rapid.IntRange(50, 400).Draw(t, "nSteps")
+	if fan.Kind == "cmd" {
+		nSteps = 40 + nSteps/20
+	}
+	sc.Steps = genStallSteps(t, nSteps, true)
 	// episodes in which the fan's threshold changes (dust, bearing wear): a second stall episode
 	if rapid.Bool().Draw(t, "thetaChange") {
 		i := rapid.IntRange(1, len(sc.Steps)-1).Draw(t, "thetaAt")
